@@ -37,6 +37,26 @@ def gen_cases(ctx):
                            changes=rng.randrange(1, 6), horizon=rng.choice([50, 150, 400])))
     ctx.count('mode', mode)
     yield case
+  # many producers parked on a full queue when another one fails (needs every parked producer to be woken)
+  for i in range(120 if ctx.quick else 3000):
+    yield blocked_producers_case(rng)
+    ctx.count('mode', 'blocked_producers')
+
+
+def blocked_producers_case(rng):
+  nprod = rng.randrange(3, 5)
+  failer = rng.randrange(nprod)
+  ths = []
+  for p in range(nprod):
+    n = rng.randrange(2, 6)
+    src = [p * 100 + k for k in range(n)]
+    if p == failer:
+      src.insert(rng.randrange(1, n + 1), 'fail')
+    ths.append(dict(kind='producer', src=src, ret=900 + p))
+  ths.append(dict(kind='get') if rng.random() < 0.7 else dict(kind='batch', max=rng.choice([1, 2]), block=rng.random() < 0.5))
+  return dict(cap=rng.choice([1, 1, 2]), max_enq=nprod, timeout=False, mode='blocked_producers', threads=ths,
+              sched=dict(kind=rng.choice(['random', 'pct']), seed=rng.randrange(10**9), tw=0.1,
+                         changes=rng.randrange(1, 6), horizon=rng.choice([50, 150, 400])))
 
 
 run_impl = lq.run_impl
@@ -92,5 +112,13 @@ def finding(case, what):
   return None
 
 
-neighbours = __import__('harness.props.c04', fromlist=['neighbours']).neighbours
+_nb04 = __import__('harness.props.c04', fromlist=['neighbours']).neighbours
+
+
+def neighbours(case, rng):
+  for k, c in enumerate(_nb04(case, rng)):
+    yield c
+    if k % 2 == 0:
+      yield blocked_producers_case(rng)
+
 shrink = lq.shrink_schedule_case
